@@ -12,7 +12,8 @@
                     update succeeded and persist is set
      fixed = false  the pinned code: the update runs on r.data itself (r.data = new(T) if nil)
    The value-level behaviour of the engine is the pinned one; the five repairs announced
-   for C02/C04 (which change values, not the memory discipline) are switchable ([quirks])
+   for C02/C04 and the two of C05 that landed as 306e400 / db846a9 (which change values and panics,
+   not the memory discipline) are switchable ([quirks])
    so that the runner can follow the tree it is built against (it probes the real engine). *)
 From Verif Require Import Base.Prelude Model.Schema Model.Slices Gen.GenSchemas.
 
@@ -80,10 +81,15 @@ Record quirks := {
   q_keepwc : bool;      (* copyToSelectedData / copyToAllData restore the writecheck field on remote writes *)
   q_deladdr : bool;     (* deleteFilteredData: only addressed items need to be writable *)
   q_mergeaddr : bool;   (* Merge: an unwritable item fails a remote write only when the write names it *)
-  q_mergeunk : bool     (* Merge: a remote write naming an unknown item fails *)
+  q_mergeunk : bool;    (* Merge: a remote write naming an unknown item fails *)
+  q_selnil : bool;      (* SelectorMatch: an item without a value for a selected field does not match
+                           (commit db846a9; before: nil dereference) *)
+  q_emptysel : bool     (* UpdateList: a partial update with filter data but no data item fails
+                           (commit 306e400; before: index out of range on &newData[0]) *)
 }.
 Definition no_quirks : quirks :=
-  {| q_nobreak := false; q_keepwc := false; q_deladdr := false; q_mergeaddr := false; q_mergeunk := false |}.
+  {| q_nobreak := false; q_keepwc := false; q_deladdr := false; q_mergeaddr := false; q_mergeunk := false;
+     q_selnil := false; q_emptysel := false |}.
 
 Section Engine.
   Variable grow : nat -> nat -> nat.
@@ -179,7 +185,7 @@ Section Engine.
         end
     end.
 
-  (* FilterData.SelectorMatch: Panic = nil or unsupported item field *)
+  (* FilterData.SelectorMatch: Panic = unsupported item field (and, before db846a9, a nil one) *)
   Fixpoint sel_match_from (ks : list selk) (sel : list (option N)) (it : cell) : res bool :=
     match ks, sel with
     | k :: kr, s :: sr =>
@@ -191,7 +197,7 @@ Section Engine.
             | SBad => Panic
             | SField i =>
                 match fld it i with
-                | None => Panic
+                | None => if q_selnil q then Ok false else Panic
                 | Some w => if N.eqb w v then sel_match_from kr sr it else Ok false
                 end
             end
@@ -376,7 +382,9 @@ Section Engine.
     | Ok (ex1, ok0) =>
         match filter_data fp with
         | Some f =>
-            if Nat.eqb (s_len new) 0 then Ret Panic        (* &newData[0] *)
+            if Nat.eqb (s_len new) 0 then
+              (if q_emptysel q then Ret (Ok (ex1, false))  (* return existingData, false *)
+               else Ret Panic)                             (* &newData[0] *)
             else
               n0 <- get (fun m => rd m new 0) ;;
               match f_sel f with
@@ -498,8 +506,15 @@ Inductive op :=
 | Update (remote persist : bool) (wire : N) (u : upd)
     (* FunctionData.UpdateData reached through FeatureLocal.UpdateData / SetData, FeatureRemote.UpdateData,
        an inbound notify (wire=1) / reply (wire=2) / write (wire=1, remote) *)
-| Snapshot.
+| Snapshot
     (* DataCopy, the result being kept by the application *)
+| Keep
+    (* the application keeps a DataCopy of data that lives outside the modelled memory
+       (runner family 5: nodeManagementUseCaseData of a DeviceLocal) *)
+| Ext (z : zs).
+    (* an operation of the stack that is not transcribed (family 5: one of the four EntityLocal
+       use-case operations).  The model says nothing about it except that nothing handed out
+       changes; the monitor judges the implementation's observations (a runtime oracle only). *)
 
 Inductive obs :=
 | Res (code : N)                                     (* 0 success, 1 error returned, 2 panic *)
@@ -508,6 +523,7 @@ Inductive obs :=
        payload; oc / ac: 1 + the index of the earliest handed-out object with the same outer struct /
        the same backing array (its own index if none; 0: no outer struct / empty list); v its value *)
 | NilStore                                           (* DataCopy returned nil *)
+| Kept                                               (* an object outside the modelled memory was handed out *)
 | Changed (k : nat).                                 (* handed-out object k no longer has the value it had *)
 
 Record st := {
@@ -602,6 +618,8 @@ Section Step.
     | Update remote persist wire u =>
         snd (exec (update_prog grow (sch s) (qk s) (fixed s) remote persist (u_new u) (u_fp u) (u_fd u)) (cur s))
     | Snapshot => snd (exec data_copy (cur s))
+    | Keep => []
+    | Ext _ => []
     end.
 
   Definition step (s : st) (o : op) : st * list obs :=
@@ -624,6 +642,10 @@ Section Step.
         let '(hs1, outs) := hand_outs m' (snap_news c) hs0 in
         ({| sch := sch s; fam := fam s; fixed := fixed s; qk := qk s; cur := m'; handed := hs1 |},
          outs ++ snap_nil c ++ chg)
+    | Keep =>
+        ({| sch := sch s; fam := fam s; fixed := fixed s; qk := qk s; cur := cur s;
+            handed := handed s ++ [(HList nil_slice, [])] |}, [Kept])
+    | Ext _ => (s, [])
     end.
 
   Fixpoint run (s : st) (ops : list op) : st * list (op * list obs) :=
@@ -637,12 +659,14 @@ Section Step.
 End Step.
 
 (* ---- wire encoding (self-describing: field counts travel with the data) ----
-   op:   0 ty fam fixed q1 q2 q3 q4 q5
+   op:   0 ty fam fixed q1 q2 q3 q4 q5 [q6 q7]     (q6 q7 absent = 0)
          1 remote persist wire <items> <filter partial> <filter delete>
          2
+         3                 (Keep)
+         4 ...             (Ext: the numbers are the runner's business)
    <items>  = n nf, then n items of nf numbers each (0 = nil, v+1 = value v)
    <filter> = 0 (nil) | 1 hs he ns ne <ns numbers> <ne numbers 0/1>
-   obs:  10 code | 15 kind oc ac <items> | 16 | 14 k *)
+   obs:  10 code | 15 kind oc ac <items> | 16 | 17 | 14 k *)
 
 Definition of_z (z : Z) : option N := if Z.eqb z 0 then None else Some (Nz (z - 1)).
 Definition to_z (o : option N) : Z := match o with None => 0 | Some v => Zn v + 1 end.
@@ -686,7 +710,13 @@ Definition parse_op (l : zs) : option op :=
   | [0; ty; fm; fx; q1; q2; q3; q4; q5] =>
       if Z.ltb ty 0 || Z.ltb fm 0 then None
       else Some (Init (Z.to_nat ty) (Nz fm) (bZ fx)
-                   {| q_nobreak := bZ q1; q_keepwc := bZ q2; q_deladdr := bZ q3; q_mergeaddr := bZ q4; q_mergeunk := bZ q5 |})
+                   {| q_nobreak := bZ q1; q_keepwc := bZ q2; q_deladdr := bZ q3; q_mergeaddr := bZ q4; q_mergeunk := bZ q5;
+                      q_selnil := false; q_emptysel := false |})
+  | [0; ty; fm; fx; q1; q2; q3; q4; q5; q6; q7] =>
+      if Z.ltb ty 0 || Z.ltb fm 0 then None
+      else Some (Init (Z.to_nat ty) (Nz fm) (bZ fx)
+                   {| q_nobreak := bZ q1; q_keepwc := bZ q2; q_deladdr := bZ q3; q_mergeaddr := bZ q4; q_mergeunk := bZ q5;
+                      q_selnil := bZ q6; q_emptysel := bZ q7 |})
   | 1 :: remote :: persist :: wire :: r =>
       if Z.ltb wire 0 then None else
       match parse_items r with
@@ -702,6 +732,8 @@ Definition parse_op (l : zs) : option op :=
       | None => None
       end
   | [2] => Some Snapshot
+  | [3] => Some Keep
+  | 4 :: r => Some (Ext r)
   | _ => None
   end.
 
@@ -714,6 +746,7 @@ Definition print_obs (o : obs) : zs :=
   | Res c => [10; Zn c]
   | Out k oc ac v => 15 :: Zn k :: Z.of_nat oc :: Z.of_nat ac :: print_items v
   | NilStore => [16]
+  | Kept => [17]
   | Changed k => [14; Z.of_nat k]
   end.
 
@@ -726,6 +759,7 @@ Definition parse_obs (l : zs) : option obs :=
       | _ => None
       end
   | [16] => Some NilStore
+  | [17] => Some Kept
   | [14; k] => Some (Changed (Z.to_nat k))
   | _ => None
   end.
